@@ -353,6 +353,26 @@ CASES = [
      spec_for(LF, "float", abstract_calls={"math.sqrt": {"param": "py_sqrt", "type": "fn(float)->float"}}), None),
     ("math.sqrt as an abstract callee without `import math`", "def f(a):\n    return math.sqrt(a[0])\n",
      spec_for(LF, "float", abstract_calls={"math.sqrt": {"param": "py_sqrt", "type": "fn(float)->float"}}), "not a translated function"),
+    ("a generator function (SPEC generator) translates: the list of the yielded values",
+     "def f(a):\n    for x in a:\n        yield x + 1.0\n    yield 0.0\n", spec_for(LF, "list[float]", generator=True), None),
+    ("a generator function without generator in the spec", "def f(a):\n    for x in a:\n        yield x\n", spec_for(LF, "list[float]"), "SPEC does not say generator"),
+    ("generator in the spec of a function that does not yield", "def f(a):\n    return a\n", spec_for(LF, "list[float]", generator=True), "generator"),
+    ("yield used as an expression", "def f(a):\n    x = yield a[0]\n    yield x\n", spec_for(LF, "list[float]", generator=True), "yield used as an expression"),
+    ("return inside a generator", "def f(a):\n    yield a[0]\n    return 1.0\n", spec_for(LF, "list[float]", generator=True), "generator: return"),
+    ("a while loop bounded by a fuel parameter translates",
+     "def f(a):\n    x = a[0]\n    while x < a[1]:\n        x = x + 1.0\n    return x\n", spec_for(LF, "float", fuel_params=["py_fuel"], fuel=["py_fuel"]), None),
+    ("a fuel parameter with a name of the source", "def f(a):\n    x = a[0]\n    while x < a[1]:\n        x = x + 1.0\n    return x\n",
+     spec_for(LF, "float", fuel_params=["a"], fuel=["a"]), "fresh name"),
+    ("call of a function with a fuel parameter from one without",
+     "def g(a):\n    x = a[0]\n    while x < a[1]:\n        x = x + 1.0\n    return x\ndef f(a):\n    return g(a)\n",
+     spec_multi([dict(name="g", params=LF, returns="float", fuel_params=["py_fuel"], fuel=["py_fuel"]), dict(name="f", params=LF, returns="float")]),
+     "not a fuel parameter of this function"),
+    ("a fuel parameter is passed on to a callee", 
+     "def g(a):\n    x = a[0]\n    while x < a[1]:\n        x = x + 1.0\n    return x\ndef f(a):\n    return g(a)\n",
+     spec_multi([dict(name="g", params=LF, returns="float", fuel_params=["py_fuel"], fuel=["py_fuel"]),
+                 dict(name="f", params=LF, returns="float", fuel_params=["py_fuel"])]), None),
+    ("min(*l) of a list of floats translates", "def f(a):\n    return min(*a)\n", spec_for(LF, "float"), None),
+    ("min(*l) of a list of lists", "def f(a):\n    return min(*a)\n", spec_for({"a": "list[list[float]]"}, "list[float]"), "min(*l) of a"),
     ("a % n with a run-time divisor", "def f(a, n):\n    return len(a) % n\n", spec_for({"a": "list[float]", "n": "int"}, "int"), "integer operator Mod"),
 ]
 
